@@ -21,7 +21,9 @@ Types1 ==
 Inner2 == { t \in Ctor1(RepLeaves, RepKeys) : t[1] \in {"list", "dict", "opt", "tuple", "set", "ntuple", "tdict", "deque", "chainmap", "utuple", "odict"} }
 Types2 == { t \in Ctor1(Inner2, RepKeys) : t[1] \in {"list", "dict", "opt", "tuple", "vtuple", "ntuple", "tdict", "odict", "utuple", "newtype", "mproxy"} }
 Types == IF Depth = 0 THEN Leaves ELSE IF Depth = 1 THEN Types1 ELSE Types2
+FalsyLeaves == { <<"int">>, <<"float">>, <<"bool">>, <<"str">>, <<"bytes">>, <<"timedelta">>, <<"text", "decimal">>, <<"text", "fraction">> }
 AllTypes == Types \cup { Holder(t) : t \in Types } \cup { PlainHolder(t) : t \in Types }
+            \cup { FalsyHolder(t, FirstOf(Smp(t))) : t \in Types \cap FalsyLeaves }
 
 Cx == DefaultCx
 
